@@ -18,8 +18,8 @@ import (
 	"github.com/bytom/bytom/common"
 	"github.com/bytom/bytom/consensus"
 	"github.com/bytom/bytom/crypto/ed25519/chainkd"
-	berrors "github.com/bytom/bytom/errors"
 	dbm "github.com/bytom/bytom/database/leveldb"
+	berrors "github.com/bytom/bytom/errors"
 	"github.com/bytom/bytom/protocol/bc"
 	"github.com/bytom/bytom/protocol/bc/types"
 	"github.com/bytom/bytom/protocol/validation"
@@ -120,16 +120,16 @@ func newC27env() *c27env {
 }
 
 type c27st struct {
-	c      *Ctx
-	env    *c27env
-	db     dbm.DB
-	am     *account.Manager
-	k      *account.VerifKeeper
-	height uint64
-	outID  map[bc.Hash]int
-	inDB   map[int]bool
-	inUnc  map[int]bool
-	fails  [][2]string
+	c       *Ctx
+	env     *c27env
+	db      dbm.DB
+	am      *account.Manager
+	k       *account.VerifKeeper
+	height  uint64
+	outID   map[bc.Hash]int
+	inDB    map[int]bool
+	inUnc   map[int]bool
+	fails   [][2]string
 	lastRes uint64
 }
 
@@ -815,6 +815,95 @@ func c27subsets(n, m int) [][]int {
 	return out
 }
 
+// json.Unmarshal(json.Marshal(tpl)) must give the same template: same transaction, same signing
+// instructions and — slot by slot — the same (possibly empty) signatures: Sigs is indexed by key
+// position, an empty slot is information.
+func c27jsonRoundTrip(c *Ctx, tpl *txbuilder.Template, label string) *txbuilder.Template {
+	data, err := json.Marshal(tpl)
+	if err != nil {
+		capFail(c, "template JSON: Marshal fails", label+": "+err.Error())
+		return nil
+	}
+	parsed := &txbuilder.Template{}
+	if err := json.Unmarshal(data, parsed); err != nil {
+		capFail(c, "template JSON: Unmarshal of a marshalled template fails", label+": "+err.Error())
+		return nil
+	}
+	bad := ""
+	switch {
+	case parsed.Transaction == nil || parsed.Transaction.ID != tpl.Transaction.ID:
+		bad = "transaction differs"
+	case len(parsed.SigningInstructions) != len(tpl.SigningInstructions):
+		bad = "number of signing instructions differs"
+	case parsed.Fee != tpl.Fee || parsed.AllowAdditional != tpl.AllowAdditional:
+		bad = "fee / allow_additional differs"
+	}
+	sigsOf := func(wc interface{}) (kind string, quorum int, nkeys int, sigs [][]byte, ok bool) {
+		switch w := wc.(type) {
+		case *txbuilder.RawTxSigWitness:
+			for _, s := range w.Sigs {
+				sigs = append(sigs, s)
+			}
+			return "raw_tx_signature", w.Quorum, len(w.Keys), sigs, true
+		case *txbuilder.SignatureWitness:
+			for _, s := range w.Sigs {
+				sigs = append(sigs, s)
+			}
+			return "signature", w.Quorum, len(w.Keys), sigs, true
+		}
+		return "", 0, 0, nil, false
+	}
+	for i := 0; bad == "" && i < len(tpl.SigningInstructions); i++ {
+		a, b := tpl.SigningInstructions[i], parsed.SigningInstructions[i]
+		if a.Position != b.Position || len(a.WitnessComponents) != len(b.WitnessComponents) {
+			bad = fmt.Sprintf("signing instruction %d differs", i)
+			break
+		}
+		for j := range a.WitnessComponents {
+			ka, qa, na, sa, oka := sigsOf(a.WitnessComponents[j])
+			kb, qb, nb, sb, okb := sigsOf(b.WitnessComponents[j])
+			if oka != okb || ka != kb || qa != qb || na != nb {
+				bad = fmt.Sprintf("witness component %d of input %d differs", j, i)
+				break
+			}
+			if !oka {
+				continue
+			}
+			// trailing empty slots may be absent (Sign pads to len(Keys)); a slot that is present
+			// must hold the same signature at the same key position
+			for k := 0; k < len(sa) || k < len(sb); k++ {
+				var x, y []byte
+				if k < len(sa) {
+					x = sa[k]
+				}
+				if k < len(sb) {
+					y = sb[k]
+				}
+				if string(x) != string(y) {
+					bad = fmt.Sprintf("input %d, %s witness: signature slot %d (key position %d) differs after the round trip: %d slots %v -> %d slots %v", i, ka, k, k, len(sa), c27slotMap(sa), len(sb), c27slotMap(sb))
+					break
+				}
+			}
+		}
+	}
+	if bad != "" {
+		capFail(c, "template JSON round trip does not preserve the template", label+": "+bad)
+	}
+	return parsed
+}
+
+func c27slotMap(sigs [][]byte) string {
+	out := ""
+	for _, s := range sigs {
+		if len(s) > 0 {
+			out += "s"
+		} else {
+			out += "-"
+		}
+	}
+	return out
+}
+
 func c27multisig(c *Ctx) {
 	consensus.ActiveNetParams = consensus.SoloNetParams
 	rd := rand.New(rand.NewSource(20260923))
@@ -867,130 +956,154 @@ func c27multisig(c *Ctx) {
 			for _, nIn := range []int{1, 3} {
 				for _, subset := range c27subsets(n, m) {
 					for _, order := range c27perms(subset) {
-						label := fmt.Sprintf("%d-of-%d account, %s, %d input(s), signers (key positions) %v in order %v", m, n, kind, nIn, subset, order)
-						// fresh UTXO records for this trial
-						var amounts []uint64
-						var keys [][]byte
-						for i := 0; i < nIn; i++ {
-							serial++
-							u := &account.UTXO{SourceID: bc.Hash{V0: serial, V1: 99}, SourcePos: 0, AssetID: *consensus.BTMAssetID,
-								Amount: uint64(900000000 - 100000000*i), ControlProgram: cp.ControlProgram, AccountID: acc.ID, Address: cp.Address,
-								ControlProgramIndex: cp.KeyIndex, Change: cp.Change}
-							switch kind {
-							case "veto":
-								u.Vote = voteKey
-								in := types.NewVetoInput(nil, u.SourceID, u.AssetID, u.Amount, u.SourcePos, u.ControlProgram, u.Vote, nil)
-								u.OutputID, _ = in.SpentOutputID()
-							case "legacy":
-								u.Address, u.ControlProgram, u.ControlProgramIndex, u.Change = "", legacyProg, 7, false
-								fallthrough
-							default:
-								in := types.NewSpendInput(nil, u.SourceID, u.AssetID, u.Amount, u.SourcePos, u.ControlProgram, nil)
-								u.OutputID, _ = in.SpentOutputID()
+						for _, viaJSON := range []bool{false, true} {
+							label := fmt.Sprintf("%d-of-%d account, %s, %d input(s), signers (key positions) %v in order %v", m, n, kind, nIn, subset, order)
+							if viaJSON {
+								label += ", template handed over as JSON between the signers"
 							}
-							data, _ := json.Marshal(u)
-							key := account.StandardUTXOKey(u.OutputID)
-							db.Set(key, data)
-							keys = append(keys, key)
-							amounts = append(amounts, u.Amount)
-						}
-						var total uint64
-						for _, a := range amounts {
-							total += a
-						}
-						want := total - amounts[len(amounts)-1] + 1 // needs every input
-						if nIn == 1 {
-							want = total / 2
-						}
-						fee := uint64(30000000)
-						var act txbuilder.Action
-						if kind == "veto" {
-							act, err = am.DecodeVetoAction([]byte(fmt.Sprintf(`{"type":"veto","account_id":%q,"asset_id":%q,"amount":%d,"vote":"%x"}`, acc.ID, consensus.BTMAssetID.String(), want, voteKey)))
-						} else {
-							act, err = am.DecodeSpendAction([]byte(fmt.Sprintf(`{"type":"spend_account","account_id":%q,"asset_id":%q,"amount":%d}`, acc.ID, consensus.BTMAssetID.String(), want)))
-						}
-						if err != nil {
-							panic(err)
-						}
-						pay, err2 := txbuilder.DecodeControlProgramAction([]byte(fmt.Sprintf(`{"type":"control_program","control_program":"%x","asset_id":%q,"amount":%d}`, foreign, consensus.BTMAssetID.String(), want-fee)))
-						if err2 != nil {
-							panic(err2)
-						}
-						tpl, err := txbuilder.Build(ctx, nil, []txbuilder.Action{act, pay}, time.Unix(1000, 0), 0)
-						cleanup := func() {
-							for _, r := range keeper.Reservations() {
-								keeper.Cancel(r.ID)
+							// fresh UTXO records for this trial
+							var amounts []uint64
+							var keys [][]byte
+							for i := 0; i < nIn; i++ {
+								serial++
+								u := &account.UTXO{SourceID: bc.Hash{V0: serial, V1: 99}, SourcePos: 0, AssetID: *consensus.BTMAssetID,
+									Amount: uint64(900000000 - 100000000*i), ControlProgram: cp.ControlProgram, AccountID: acc.ID, Address: cp.Address,
+									ControlProgramIndex: cp.KeyIndex, Change: cp.Change}
+								switch kind {
+								case "veto":
+									u.Vote = voteKey
+									in := types.NewVetoInput(nil, u.SourceID, u.AssetID, u.Amount, u.SourcePos, u.ControlProgram, u.Vote, nil)
+									u.OutputID, _ = in.SpentOutputID()
+								case "legacy":
+									u.Address, u.ControlProgram, u.ControlProgramIndex, u.Change = "", legacyProg, 7, false
+									fallthrough
+								default:
+									in := types.NewSpendInput(nil, u.SourceID, u.AssetID, u.Amount, u.SourcePos, u.ControlProgram, nil)
+									u.OutputID, _ = in.SpentOutputID()
+								}
+								data, _ := json.Marshal(u)
+								key := account.StandardUTXOKey(u.OutputID)
+								db.Set(key, data)
+								keys = append(keys, key)
+								amounts = append(amounts, u.Amount)
 							}
-							for _, k := range keys {
-								db.Delete(k)
+							var total uint64
+							for _, a := range amounts {
+								total += a
 							}
-						}
-						if err != nil {
-							capFail(c, "m-of-n account: Build of a fundable request fails", label+": "+err.Error())
+							want := total - amounts[len(amounts)-1] + 1 // needs every input
+							if nIn == 1 {
+								want = total / 2
+							}
+							fee := uint64(30000000)
+							var act txbuilder.Action
+							if kind == "veto" {
+								act, err = am.DecodeVetoAction([]byte(fmt.Sprintf(`{"type":"veto","account_id":%q,"asset_id":%q,"amount":%d,"vote":"%x"}`, acc.ID, consensus.BTMAssetID.String(), want, voteKey)))
+							} else {
+								act, err = am.DecodeSpendAction([]byte(fmt.Sprintf(`{"type":"spend_account","account_id":%q,"asset_id":%q,"amount":%d}`, acc.ID, consensus.BTMAssetID.String(), want)))
+							}
+							if err != nil {
+								panic(err)
+							}
+							pay, err2 := txbuilder.DecodeControlProgramAction([]byte(fmt.Sprintf(`{"type":"control_program","control_program":"%x","asset_id":%q,"amount":%d}`, foreign, consensus.BTMAssetID.String(), want-fee)))
+							if err2 != nil {
+								panic(err2)
+							}
+							tpl, err := txbuilder.Build(ctx, nil, []txbuilder.Action{act, pay}, time.Unix(1000, 0), 0)
+							cleanup := func() {
+								for _, r := range keeper.Reservations() {
+									keeper.Cancel(r.ID)
+								}
+								for _, k := range keys {
+									db.Delete(k)
+								}
+							}
+							if err != nil {
+								capFail(c, "m-of-n account: Build of a fundable request fails", label+": "+err.Error())
+								cleanup()
+								continue
+							}
+							tx := tpl.Transaction
+							validate := func() error {
+								data, _ := tx.TxData.MarshalText()
+								tx.TxData.SerializedSize = uint64(len(data) / 2)
+								tx.Tx.SerializedSize = uint64(len(data) / 2)
+								blk := &bc.Block{BlockHeader: &bc.BlockHeader{Version: 1, Height: 101, Timestamp: 1}}
+								_, verr := validation.ValidateTx(tx.Tx, blk, func(prog []byte) ([]byte, error) { return nil, nil })
+								return verr
+							}
+							for step, pos := range order {
+								if viaJSON {
+									// the next cosigner receives the template as JSON
+									if parsed := c27jsonRoundTrip(c, tpl, label); parsed != nil {
+										tpl = parsed
+										tx = tpl.Transaction
+									}
+								}
+								if txbuilder.SignProgress(tpl) {
+									capFail(c, "m-of-n account: SignProgress true with fewer than m signers", fmt.Sprintf("%s: after %d signer(s)", label, step))
+								}
+								holder := acc.XPubs[pos]
+								only := func(_ context.Context, xpub chainkd.XPub, path [][]byte, data [32]byte, _ string) ([]byte, error) {
+									if xpub != holder {
+										return nil, fmt.Errorf("this signer does not hold that key")
+									}
+									return prv[xpub].Derive(path).Sign(data[:]), nil
+								}
+								if err := txbuilder.Sign(ctx, tpl, "", only); err != nil {
+									capFail(c, "m-of-n account: txbuilder.Sign fails", label+": "+err.Error())
+								}
+							}
+							if viaJSON {
+								// ... and so does whoever submits it
+								if parsed := c27jsonRoundTrip(c, tpl, label); parsed != nil {
+									tpl = parsed
+									tx = tpl.Transaction
+									if err := txbuilder.Sign(ctx, tpl, "", func(context.Context, chainkd.XPub, [][]byte, [32]byte, string) ([]byte, error) {
+										return nil, fmt.Errorf("no key")
+									}); err != nil { // no new signature: only re-materializes the witnesses of the parsed template
+										capFail(c, "m-of-n account: txbuilder.Sign fails", label+": "+err.Error())
+									}
+								}
+							}
+							progress := txbuilder.SignProgress(tpl)
+							verr := validate()
+							switch {
+							case !progress:
+								capFail(c, "m-of-n account: m distinct key holders signed but SignProgress is false", label)
+							case verr != nil:
+								capFail(c, "m-of-n account: m key holders signed (SignProgress true) but ValidateTx rejects the transaction", label+": "+verr.Error())
+							}
+							// witness: exactly m signatures per input (64-byte arguments)
+							for i, in := range tx.Inputs {
+								nsig := 0
+								for _, a := range in.Arguments() {
+									if len(a) == 64 {
+										nsig++
+									}
+								}
+								if nsig != m {
+									capFail(c, "m-of-n account: input witness does not carry exactly m signatures", fmt.Sprintf("%s: input %d carries %d", label, i, nsig))
+								}
+							}
+							// pays as requested
+							var in, out uint64
+							for _, x := range tx.Inputs {
+								in += x.Amount()
+							}
+							paid := false
+							for _, o := range tx.Outputs {
+								out += o.Amount
+								if string(o.ControlProgram) == string(foreign) && o.Amount == want-fee {
+									paid = true
+								}
+							}
+							if !paid || in-out != fee || len(tx.Inputs) != nIn {
+								capFail(c, "m-of-n account: built transaction does not pay as requested", fmt.Sprintf("%s: in %d out %d inputs %d", label, in, out, len(tx.Inputs)))
+							}
+							c.Count(fmt.Sprintf("multisig/%d-of-%d/%s", m, n, kind))
 							cleanup()
-							continue
 						}
-						tx := tpl.Transaction
-						validate := func() error {
-							data, _ := tx.TxData.MarshalText()
-							tx.TxData.SerializedSize = uint64(len(data) / 2)
-							tx.Tx.SerializedSize = uint64(len(data) / 2)
-							blk := &bc.Block{BlockHeader: &bc.BlockHeader{Version: 1, Height: 101, Timestamp: 1}}
-							_, verr := validation.ValidateTx(tx.Tx, blk, func(prog []byte) ([]byte, error) { return nil, nil })
-							return verr
-						}
-						for step, pos := range order {
-							if txbuilder.SignProgress(tpl) {
-								capFail(c, "m-of-n account: SignProgress true with fewer than m signers", fmt.Sprintf("%s: after %d signer(s)", label, step))
-							}
-							holder := acc.XPubs[pos]
-							only := func(_ context.Context, xpub chainkd.XPub, path [][]byte, data [32]byte, _ string) ([]byte, error) {
-								if xpub != holder {
-									return nil, fmt.Errorf("this signer does not hold that key")
-								}
-								return prv[xpub].Derive(path).Sign(data[:]), nil
-							}
-							if err := txbuilder.Sign(ctx, tpl, "", only); err != nil {
-								capFail(c, "m-of-n account: txbuilder.Sign fails", label+": "+err.Error())
-							}
-						}
-						progress := txbuilder.SignProgress(tpl)
-						verr := validate()
-						switch {
-						case !progress:
-							capFail(c, "m-of-n account: m distinct key holders signed but SignProgress is false", label)
-						case verr != nil:
-							capFail(c, "m-of-n account: m key holders signed (SignProgress true) but ValidateTx rejects the transaction", label+": "+verr.Error())
-						}
-						// witness: exactly m signatures per input (64-byte arguments)
-						for i, in := range tx.Inputs {
-							nsig := 0
-							for _, a := range in.Arguments() {
-								if len(a) == 64 {
-									nsig++
-								}
-							}
-							if nsig != m {
-								capFail(c, "m-of-n account: input witness does not carry exactly m signatures", fmt.Sprintf("%s: input %d carries %d", label, i, nsig))
-							}
-						}
-						// pays as requested
-						var in, out uint64
-						for _, x := range tx.Inputs {
-							in += x.Amount()
-						}
-						paid := false
-						for _, o := range tx.Outputs {
-							out += o.Amount
-							if string(o.ControlProgram) == string(foreign) && o.Amount == want-fee {
-								paid = true
-							}
-						}
-						if !paid || in-out != fee || len(tx.Inputs) != nIn {
-							capFail(c, "m-of-n account: built transaction does not pay as requested", fmt.Sprintf("%s: in %d out %d inputs %d", label, in, out, len(tx.Inputs)))
-						}
-						c.Count(fmt.Sprintf("multisig/%d-of-%d/%s", m, n, kind))
-						cleanup()
 					}
 				}
 			}
